@@ -48,6 +48,8 @@ class Cell(object):
         # later calls create (memos) are not "its data arrays" in the sense of the statement
         self.param_paths = {p for p, _ in walker.arrays(obj)} if role == "other" else None
         self.probe_results = {}
+        # the reference to its landmark manager that the caller takes from an owner right away (while it is empty)
+        self.handle = obj.landmarks if role == "owner" else None
 
 
 class Ownership(Machine):
@@ -118,8 +120,19 @@ class Ownership(Machine):
         c = self.cells_by_role(roles)
         return c[k % len(c)] if c else None
 
-    def _mgr(self, cell):
-        return cell.obj if cell.role == "manager" else cell.obj.landmarks
+    def _mgr(self, cell, held=False):
+        """The manager of a cell.  held=True: the reference the caller took from the owner EARLIER (when the cell was
+        made, or after the last assignment of a whole manager) - writing through it is writing into the owner's
+        landmarks; reads and checks go through a fresh `owner.landmarks`."""
+        if cell.role == "manager":
+            return cell.obj
+        if held:
+            if getattr(cell, "handle", None) is None:
+                cell.handle = cell.obj.landmarks
+            else:
+                self.ctx.probe("manager_reference_taken_earlier_used_for_writing")
+            return cell.handle
+        return cell.obj.landmarks
 
     def _ndims(self, cell):
         return cell.d
@@ -267,7 +280,7 @@ class Ownership(Machine):
         if val is None or val.obj is tgt.obj or val.kind in gen.IMAGE_KINDS:
             return
         name = NAMES[op["name"] % len(NAMES)]
-        m = self._mgr(tgt)
+        m = self._mgr(tgt, held=bool(op["seed"] & 1))
         cur = None
         if tgt.groups:
             cur = m[list(tgt.groups)[0]].n_dims
@@ -427,6 +440,7 @@ class Ownership(Machine):
         if src.kind != owner.kind and src.role == "owner":
             ctx.probe("assign_manager_across_classes")
         owner.groups = OrderedDict(src.groups)
+        owner.handle = None         # a whole manager was assigned: earlier references are references to the old one
         owner.had_dim = md
         self._static_sharing(owner.obj.landmarks, m, "LandmarkManager(assigned)", ())
         return (owner,)
